@@ -357,7 +357,19 @@ def m_strncpy(ex, args, inst):
     if isinstance(s, str) and isinstance(n, int):
         write_cstring(ex, dst, s[:n], nul=len(s) < n)
         return dst
-    raise ExecError('strncpy symbolic')
+    if isinstance(s, T) and isinstance(n, T):
+        ln = tm.uf('strlen', s, sort='I')
+        if n is ln:
+            # exactly strlen(src) bytes: the terminating NUL is NOT copied -- the buffer keeps its old tail
+            old = ex.st.side.get((dst.rid, dst.off))
+            oldv = old.v if old is not None else tm.sym('oldbuf', 'S')
+            oldv = oldv if isinstance(oldv, T) else tm.mk('str', (), oldv, 'S')
+            write_cstring(ex, dst, tm.uf('unterminated-prefix-over', s, oldv, sort='S'))
+            return dst
+        if n.op == 'add' and ((n.a[0] is ln and tm.isc(n.a[1]) and n.a[1].p >= 1) or (n.a[1] is ln and tm.isc(n.a[0]) and n.a[0].p >= 1)):
+            write_cstring(ex, dst, s)
+            return dst
+    raise ExecError('strncpy with length %r is not modelled' % (n,))
 
 
 def m_strcmp(ex, args, inst):
@@ -503,8 +515,43 @@ def string_method(name, sig):
     def unsupported(ex, args, inst):
         raise ExecError('std::string::%s(%s) is not modelled by Engine A (character-level behaviour is C13/CBMC)' % (name, sig))
 
+    def conc(ex, p):
+        v = get_str(ex, p).v
+        if not isinstance(v, str):
+            raise ExecError('std::string::%s on a symbolic string is not modelled by Engine A' % name)
+        return v
+
+    def substr(ex, args, inst):
+        v = conc(ex, args[1])
+        pos = args[2]
+        n = args[3] if len(args) > 3 else -1
+        if not isinstance(pos, int) or not isinstance(n, int):
+            raise ExecError('substr symbolic')
+        if pos > len(v):
+            ex.st.event('oob', 'string-substr', pos, len(v), ex.cur_fn)
+        set_str(ex, args[0], v[pos:] if n < 0 else v[pos:pos + n])
+        return None
+
+    def push_back(ex, args, inst):
+        v = conc(ex, args[0])
+        set_str(ex, args[0], v + chr(args[1] & 0xff))
+        return None
+
+    def clear_(ex, args, inst):
+        set_str(ex, args[0], '')
+        return None
+
+    def compare(ex, args, inst):
+        a = get_str(ex, args[0]).v
+        b = ex.cstring(args[1]) if sig.startswith('char const*') else get_str(ex, args[1]).v
+        if isinstance(a, str) and isinstance(b, str):
+            return (a > b) - (a < b)
+        r = str_eq(ex, a, b)
+        return tm.ite(r, tm.iconst(0), tm.iconst(1)) if isinstance(r, T) else (0 if r else 1)
+
     table = {'string': ctor, '~string': dtor, 'operator=': assign, 'assign': assign, 'empty': empty,
-             'length': length, 'size': length, 'c_str': c_str, 'operator+=': append}
+             'length': length, 'size': length, 'c_str': c_str, 'data': c_str, 'operator+=': append, 'append': append,
+             'substr': substr, 'push_back': push_back, 'clear': clear_, 'compare': compare}
     return table.get(name, unsupported)
 
 
@@ -755,8 +802,43 @@ def vector_method(elty, name, sig):
         v = get_vec(ex, args[0])
         return Ptr(v.buf, v.n * es)
 
+    def at(ex, args, inst):
+        v = get_vec(ex, args[0])
+        i = args[1]
+        if not isinstance(i, int) or i < 0 or i >= v.n:
+            ex.st.event('oob', 'vector-at', i, v.n, ex.cur_fn)
+            raise ExecError('std::vector::at out of range (std::out_of_range)')
+        return Ptr(v.buf, i * es)
+
+    def front(ex, args, inst):
+        v = get_vec(ex, args[0])
+        if v.n == 0:
+            ex.st.event('oob', 'vector-front-empty', ex.cur_fn)
+        return Ptr(v.buf, 0)
+
+    def back(ex, args, inst):
+        v = get_vec(ex, args[0])
+        if v.n == 0:
+            ex.st.event('oob', 'vector-back-empty', ex.cur_fn)
+        return Ptr(v.buf, max(v.n - 1, 0) * es)
+
+    def pop_back(ex, args, inst):
+        v = get_vec(ex, args[0], mut=True)
+        if v.n == 0:
+            ex.st.event('oob', 'vector-pop_back-empty', ex.cur_fn)
+        else:
+            v.n -= 1
+        return None
+
+    def nothing(ex, args, inst):
+        return None
+
+    def data(ex, args, inst):
+        return Ptr(get_vec(ex, args[0]).buf, 0)
+
     table = {'vector': ctor, '~vector': dtor, 'operator=': assign, 'operator[]': index, 'size': size, 'empty': empty,
-             'resize': resize, 'push_back': push_back, 'clear': clear, 'begin': begin, 'end': end}
+             'resize': resize, 'push_back': push_back, 'clear': clear, 'begin': begin, 'end': end,
+             'at': at, 'front': front, 'back': back, 'pop_back': pop_back, 'reserve': nothing, 'data': data, 'capacity': size}
     if name not in table:
         return None
     return table[name]
@@ -899,8 +981,43 @@ def map_method(vty, name, sig):
         ex.st.writes.append((args[0].rid, args[0].off, 8))
         return None
 
+    def erase(ex, args, inst):
+        m = get_map(ex, args[0], mut=True)
+        if sig.strip().startswith('std::__map_it'):
+            it = args[1]
+            if not isinstance(it, Ptr):
+                raise ExecError('map::erase(iterator) with %r' % (it,))
+            rid = it.rid
+            if ex.st.regions[rid].kind == 'mapend':
+                ex.st.event('oob', 'map-erase-end', ex.cur_fn)
+                return None
+            m.entries = [(k, r) for k, r in m.entries if r != rid]
+            ex.st.mut(rid).alive = False
+            ex.st.writes.append((args[0].rid, args[0].off, 8))
+            return None
+        key = get_str(ex, args[1]).v
+        rid = map_find(ex, m, key)
+        if rid is None:
+            return 0
+        m.entries = [(k, r) for k, r in m.entries if r != rid]
+        ex.st.mut(rid).alive = False
+        ex.st.writes.append((args[0].rid, args[0].off, 8))
+        return 1
+
+    def count(ex, args, inst):
+        m = get_map(ex, args[0])
+        return 1 if map_find(ex, m, get_str(ex, args[1]).v) is not None else 0
+
+    def at(ex, args, inst):
+        m = get_map(ex, args[0])
+        rid = map_find(ex, m, get_str(ex, args[1]).v)
+        if rid is None:
+            ex.st.event('oob', 'map-at-missing-key', ex.cur_fn)
+            raise ExecError('std::map::at: key not present (std::out_of_range)')
+        return Ptr(rid, 8)
+
     table = {'map': ctor, '~map': dtor, 'operator[]': index, 'find': find, 'begin': begin, 'end': end,
-             'size': size, 'empty': empty, 'clear': clear}
+             'size': size, 'empty': empty, 'clear': clear, 'erase': erase, 'count': count, 'at': at}
     return table.get(name)
 
 
